@@ -23,5 +23,5 @@ NOTE = ("Histories are concrete scripts (symbolic histories over heap objects do
         "alpha origins and pixels are symbolic. Glyph-cache insert/remove is not part of these scripts.")
 RULE = "C20 instance = one concrete history (script)."
 BOUNDS = {"histories": "10 scripts of 3-8 calls over up to 3 images"}
-OUTSIDE = ["arbitrary (symbolic) call histories", "glyph cache entries", "longer histories"]
+OUTSIDE = ["arbitrary (symbolic) call histories", "glyph cache entries (script 10 exists in the harness but does not finish in 1500 s: composite32 inside insert + table loops)", "longer histories"]
 ASSUMPTIONS = ["allocation succeeds (failure is C15)"]
